@@ -36,7 +36,7 @@
 #define NS __attribute__((no_sanitize_thread, noinline))
 #define MAXCB 32
 enum { CF_PENDING_AT_FORK = 0, CF_HELPER_ASLEEP_AT_FORK = 1, CF_PERCPU = 2, CF_PERTHREAD = 3, CF_HT_RESIZE_QUEUED = 4, CF_BP_READER_IN_SECTION_AT_FORK = 5,
-       CF_CHILD_OK = 6, CF_FORKED_TWICE = 7, CF_CB_RAN_BEFORE_FORK = 8, CF_LATE_TABLE = 9, CF_CHILD_OWN_TABLE = 10, CF_CHILD_SECTION_VS_GP = 11, CF_BP_SYNC_AT_FORK = 12 };
+       CF_CHILD_OK = 6, CF_FORKED_TWICE = 7, CF_CB_RAN_BEFORE_FORK = 8, CF_LATE_TABLE = 9, CF_CHILD_OWN_TABLE = 10, CF_CHILD_SECTION_VS_GP = 11, CF_BP_SYNC_AT_FORK = 12, CF_SECOND_FORKER = 13 };
 
 #ifdef FL_QSBR
 # define RLOCK() F(thread_online)()
@@ -164,19 +164,56 @@ static void do_fork(void)
 	ds_flag(CF_CHILD_OK);
 }
 
-enum { OP_CALLRCU, OP_HTADD, OP_SYNC, OP_BARRIER, OP_LOCK, OP_UNLOCK, OP_FORK, OP_YIELD, OP_READ, OP_HTNEW, OP_BAD };
+enum { OP_CALLRCU, OP_HTADD, OP_SYNC, OP_BARRIER, OP_LOCK, OP_UNLOCK, OP_FORK, OP_YIELD, OP_READ, OP_HTNEW, OP_RFORK, OP_BAD };
 static NS int fetch(int t, int i, long *a0)
 {
-	static const char *names[] = { "callrcu", "htadd", "sync", "barrier", "lock", "unlock", "fork", "yield", "read", "htnew" };
+	static const char *names[] = { "callrcu", "htadd", "sync", "barrier", "lock", "unlock", "fork", "yield", "read", "htnew", "rfork" };
 	const struct ds_op *o = ds_op(t, i);
 	*a0 = o->a[0];
 	for (int k = 0; k < OP_BAD; k++) if (!strcmp(o->name, names[k])) return k;
 	ds_bad_case("fork: unknown op %s", o->name);
 }
 static unsigned long shared_word;
+#ifdef FL_BP
+#include <signal.h>
+/* a second forking thread (bp): a reader forks on its own, bracketed by the urcu-bp handlers only (its child uses only the read-side and a grace period,
+ * no call_rcu), with a signal mask of its own. The handlers block all signals around the fork and must give every thread - parent side and child - its
+ * own mask back, also when another thread is inside its own fork bracket at the same time. */
+static NS int mask_differs(const sigset_t *a, const sigset_t *b) { for (int s = 1; s < 32; s++) if (sigismember(a, s) != sigismember(b, s)) return s; return 0; }
+static void reader_fork(int t)
+{
+	sigset_t before, now;
+	sigprocmask(SIG_SETMASK, NULL, &before);	/* per-thread on Linux; not the wrapped pthread_sigmask */
+	ds_flag(CF_SECOND_FORKER);
+	urcu_bp_before_fork();
+	pid_t p = fork();
+	if (p < 0) ds_bad_case("fork failed");
+	if (p == 0) {
+		set_child();
+		urcu_bp_after_fork_child();
+		sigprocmask(SIG_SETMASK, NULL, &now);
+		int s = mask_differs(&before, &now);
+		if (s) ds_fail("child of reader T%d: urcu_bp_after_fork_child() left signal %d %s, it was %s before urcu_bp_before_fork()", t, s, sigismember(&now, s) ? "blocked" : "unblocked", sigismember(&before, s) ? "blocked" : "unblocked");
+		RLOCK(); (void) uatomic_load(&shared_word); RUNLOCK();
+		F(synchronize_rcu)();
+		ds_done();
+	}
+	urcu_bp_after_fork_parent();
+	sigprocmask(SIG_SETMASK, NULL, &now);
+	int s = mask_differs(&before, &now);
+	if (s) ds_fail("reader T%d after fork: urcu_bp_after_fork_parent() left signal %d %s, it was %s before urcu_bp_before_fork() (another thread's mask?)", t, s, sigismember(&now, s) ? "blocked" : "unblocked", sigismember(&before, s) ? "blocked" : "unblocked");
+	int st = 0;
+	while (waitpid(p, &st, 0) < 0 && errno == EINTR) ;
+	if (WIFEXITED(st) && WEXITSTATUS(st) == 23) ds_child_budget("the child forked by a reader thread exceeded the step budget");
+	if (!WIFEXITED(st) || WEXITSTATUS(st) != 0) ds_fail("the child forked by reader T%d did not complete (wait status 0x%x); its report is in the captured stderr", t, st);
+}
+#endif
 static void *reader_main(void *arg)
 {
 	int t = (int)(long)arg, n = ds_nops(t);
+#ifdef FL_BP
+	if (t & 1) { sigset_t m; sigemptyset(&m); sigaddset(&m, SIGUSR2); sigaddset(&m, SIGHUP); pthread_sigmask(SIG_BLOCK, &m, NULL); }	/* odd readers: a mask of their own */
+#endif
 	F(register_thread)();
 	for (int i = 0; i < n; i++) {
 		long a0; int op = fetch(t, i, &a0);
@@ -186,6 +223,9 @@ static void *reader_main(void *arg)
 		else if (op == OP_READ) (void) uatomic_load(&shared_word);
 		else if (op == OP_SYNC) { sync_count(1); F(synchronize_rcu)(); sync_count(-1); }
 		else if (op == OP_YIELD) ds_yield();
+#ifdef FL_BP
+		else if (op == OP_RFORK) reader_fork(t);
+#endif
 		else ds_bad_case("fork: op not valid in a reader thread");
 	}
 	ds_op_begin(-1);
